@@ -85,8 +85,10 @@ def run_unit(unit_file, repo='/repo', rlimit=None, extra_args=()):
         return res
     os.makedirs(BUILD, exist_ok=True)
     prelude = open(os.path.join(VERIF, 'verus', 'prelude.rs')).read()
-    pl = prelude.count('\n')
-    text = prelude + asm.text()
+    # the unit lives in a module so that pub(super)/pub(crate) items of /repo keep their visibility tokens
+    wrap_open = 'pub mod u {\nuse super::*;\n'
+    pl = prelude.count('\n') + wrap_open.count('\n')
+    text = prelude + wrap_open + asm.text() + '\n} // mod u\nfn main() {}\n'
     path = os.path.join(BUILD, name + '.rs')
     with open(path, 'w') as f:
         f.write(text)
@@ -154,6 +156,12 @@ def run_unit(unit_file, repo='/repo', rlimit=None, extra_args=()):
     if vr.get('encountered-vir-error'):
         res['reason'] = 'verus VIR error'
         return res
+    # the canary (a deliberately false lemma) must fail: it shows that the unit's
+    # assumptions are not contradictory.  It is not an obligation of the property.
+    canary = [f for f in res['functions'] if 'canary_must_fail' in f['name']]
+    res['canary_ok'] = bool(canary) and not any(c['success'] for c in canary)
+    res['failures'] = [f for f in res['failures'] if 'canary_must_fail' not in f.get('function', '')]
+    res['functions'] = [f for f in res['functions'] if 'canary_must_fail' not in f['name']]
     if res['failures'] or any(not f['success'] for f in res['functions']):
         # rlimit is inconclusive, not a failure
         if re.search(r'[Rr]esource limit|rlimit', p.stderr) and not res['failures']:
@@ -161,8 +169,11 @@ def run_unit(unit_file, repo='/repo', rlimit=None, extra_args=()):
             return res
         res['status'] = 'failed'
         return res
-    if not vr.get('success'):
+    if not vr.get('success') and not canary:
         res['reason'] = 'verus unsuccessful without diagnostics: ' + p.stderr[-1500:]
+        return res
+    if not res['canary_ok']:
+        res['reason'] = 'canary missing or proved: assumptions may be contradictory'
         return res
     res['status'] = 'ok'
     return res
@@ -199,5 +210,11 @@ def parse_diags(stderr):
 
 if __name__ == '__main__':
     r = run_unit(sys.argv[1], repo=os.environ.get('VERIF_REPO', '/repo'))
-    r.pop('stderr', None)
-    print(json.dumps(r, indent=1)[:6000])
+    print('status', r['status'], r['reason'][:3000], 'verified', r.get('verified'), 'errors', r.get('errors'), 'wall', round(r['wall_s'], 1))
+    for f in r['functions']:
+        if not f['success'] or f['time_us'] > 2000000:
+            print('  fn', f['name'], 'success' if f['success'] else 'FAILED', f['time_us'] // 1000, 'ms')
+    for f in r['failures']:
+        print('  FAIL', f['obligation'], '@', f.get('repo_file'), f.get('repo_line'), '|', f.get('snippet'))
+    if '-v' in sys.argv:
+        print(re.sub(r'\[rust_verify[^\n]*\n', '', r.get('stderr', ''))[-int(os.environ.get('TAIL', '6000')):])
